@@ -6,6 +6,7 @@
 //!
 //! Every family generates an *op line*, then executes the real code by parsing that line, so
 //! a replay goes through exactly the same path as the original run.
+mod fam_access;
 mod fam_liq;
 mod fam_math;
 mod hist;
@@ -58,6 +59,7 @@ pub fn families() -> Vec<Box<dyn Family>> {
     fam_math::register(&mut v);
     hist::register(&mut v);
     fam_liq::register(&mut v);
+    fam_access::register(&mut v);
     v
 }
 
